@@ -51,7 +51,7 @@ def short(state):
 def correspond(ctx):
     nw = 12 if ctx.thorough else 2
     rc, out = C.go_test("./pkg/inline/db", "TestVerifC04$", {"VERIF_OUT": ctx.rd, "VERIF_SEED": ctx.seed, "VERIF_WORKLOADS": nw,
-                                                              "VERIF_TIER": ctx.tier, "VERIF_C04_BIGTX": 2500 if ctx.thorough else 1200}, timeout=6000)
+                                                              "VERIF_TIER": ctx.tier, "VERIF_C04_BIGTX": 1600 if ctx.thorough else 1200}, timeout=6000)
     sp = os.path.join(ctx.rd, "c04.stats.json")
     if rc != 0 or not os.path.exists(sp):
         rp = C.write_replay("C04", "harness-failure", {"property": "C04", "kind": "impl-run-failed", "go_test_output": out[-6000:]})
@@ -96,7 +96,7 @@ def correspond(ctx):
                                     % (wl, cid[:8], " ".join(seq)), rp, found_input=True))
     nontriv = sum(1 for c in cuts if c["acked"])
     cov = {"evaluations": len(cuts), "distinct_nontrivial": nontriv,
-           "rule": "every cut point of %d workloads (14-27 autocommit and transactional ops each incl. Create/SetReader, collector passes; the last workload is ONE transaction writing 1200/2500 new keys + a delete, of which the cuts around its commit and a sample of earlier ones are taken): SIGKILL before the n-th persistent mutation for EVERY n, reopen in a fresh process, dump Get of all keys + GetKeys, reopen again%s; distinct = (workload, cut[, recovery cut]); non-trivial = at least one operation had been acknowledged" % (
+           "rule": "every cut point of %d workloads (14-27 autocommit and transactional ops each incl. Create/SetReader, collector passes; the last workload is ONE transaction writing 1200/1600 new keys + a delete, of which the cuts around its commit and a sample of earlier ones are taken): SIGKILL before the n-th persistent mutation for EVERY n, reopen in a fresh process, dump Get of all keys + GetKeys, reopen again%s; distinct = (workload, cut[, recovery cut]); non-trivial = at least one operation had been acknowledged" % (
                len(stats["workloads"]), "; thorough: the recovery itself is killed before each of ITS mutations and recovered again" if ctx.thorough else ""),
            "exhaustive": True, "traces_validated_against_impl": len(cuts),
            "distribution": {"cuts_by_inflight_outcome": kinds, "mutations_per_workload": [w["mutations"] for w in stats["workloads"]],
